@@ -131,6 +131,7 @@ pub fn check_stream(c: &FCase, st: &mut Stats, known: &Known) -> Result<(), Stri
     }
 }
 
+#[allow(unused_assignments)]
 fn stream_inner(c: &FCase, st: &mut Stats) -> Result<(), String> {
     let capacity = (c.capacity as u32 % 8192) + 1;
     let rx_size = [64usize, 512, 65580][c.rxsel as usize % 3];
